@@ -4,7 +4,9 @@ Engine H over configurations and histories: every DAG on n cells in a fixed
 topological order (n = 4: 64 graphs, thorough n = 5: 1024), in four variants
 (direct references; contiguous fan-ins written as SUM over a range; cells
 split over two sheets; the second cell reached through a defined name, model
-loaded from .xlsx), every non-empty focus subset (cells, and the name), taken
+loaded from .xlsx; range members whose value is the empty text until an input
+changes; the same formulas with unqualified references on two sheets of a
+loaded workbook, the second sheet judged), every non-empty focus subset (cells, and the name), taken
 before anything was evaluated and after every cell was evaluated, followed by
 input-change histories applied to both models: every single change from the
 initial state and one long path that realises every ordered pair of changes
@@ -34,7 +36,7 @@ RULE = ('all DAGs on n cells (fixed topological order) x 4 variants x every '
         'itself in the focus (extraction has to follow a reference)')
 N = {'quick': 4, 'thorough': 5}
 BOUNDS = {t: {'cells': N[t], 'graphs': 2 ** (N[t] * (N[t] - 1) // 2),
-              'variants': 4, 'change_values': [0, 7]} for t in N}
+              'variants': 6, 'change_values': [0, 7]} for t in N}
 ASSUMPTIONS = ['reference closure: reachability in the generated graph']
 TECHNIQUE = ('exhaustive enumeration of dependency DAGs x focus sets x model '
              'states, extract() executed on the real model, differential '
@@ -49,7 +51,7 @@ LEVEL_NOTE = ('Every step runs the implementation; the only model is the '
               'generated graph used for the closure requirement.  Bounded: '
               'n <= 4 (5) cells, two alternative values per input.')
 
-VARIANTS = ('direct', 'range', 'two-sheets', 'name')
+VARIANTS = ('direct', 'range', 'two-sheets', 'name', 'range-blank', 'mirror')
 MULT = (2, 3, 5, 7, 11)
 CHANGE_VALUES = (0, 7)
 NAME_IDX = 1        # the defined name 'inp' is bound to the second cell
@@ -76,6 +78,8 @@ def edges_of(code, n):
 
 
 def sheet_of(i, variant):
+    if variant == 'mirror':
+        return 'Sheet2'          # the judged copy; Sheet1 holds its twin
     return 'Sheet2' if variant == 'two-sheets' and i % 2 else 'Sheet1'
 
 
@@ -95,15 +99,49 @@ def ref_text(i, j, variant, n):
 def formula_of(i, deps_i, variant, n):
     if not deps_i:
         return None
-    if variant == 'range' and len(deps_i) >= 2 and \
+    if variant in ('range', 'range-blank') and len(deps_i) >= 2 and \
             deps_i == list(range(deps_i[0], deps_i[-1] + 1)):
         return '=SUM(B%d:B%d)' % (deps_i[0] + 1, deps_i[-1] + 1)
+    if variant == 'range-blank':
+        # a formula whose value is the empty text while the last cell (an
+        # input) is > 3 - i.e. initially - and a number after a change
+        body = '+'.join('B%d*%d' % (j + 1, MULT[j]) for j in deps_i)
+        return '=IF(B%d>3,"",%s)' % (n, body)
     return '=' + '+'.join('%s*%d' % (ref_text(i, j, variant, n), MULT[j])
                           for j in deps_i)
 
 
+def variant_deps(code, n, variant):
+    """Dependency lists as the formulas of this variant really have them."""
+    deps = edges_of(code, n)
+    if variant == 'range-blank':
+        for i in range(n):
+            f = formula_of(i, deps[i], variant, n)
+            if f and f.startswith('=IF') and (n - 1) not in deps[i]:
+                deps[i] = sorted(deps[i] + [n - 1])
+    return deps
+
+
 def build(code, n, variant):
     deps = edges_of(code, n)
+    if variant == 'mirror':
+        s1, s2 = {}, {}
+        for i in range(n):
+            f = formula_of(i, deps[i], 'direct', n)
+            s1['B%d' % (i + 1)] = {'form': 'f', 'f': f[1:]} if f else \
+                {'form': 'n', 'v': i + 1}
+            s2['B%d' % (i + 1)] = {'form': 'f', 'f': f[1:]} if f else \
+                {'form': 'n', 'v': i + 101}
+        path = os.path.join(tmpdir(), 'm_%d_%d_%d.xlsx' % (os.getpid(), n,
+                                                          code))
+        with open(path, 'wb') as fp:
+            fp.write(R.build([('Sheet1', s1), ('Sheet2', s2)]))
+        import warnings
+        with warnings.catch_warnings():
+            warnings.simplefilter('ignore')
+            model = lib.ModelCompiler().read_and_parse_archive(path)
+        os.unlink(path)
+        return model, deps
     if variant == 'name':
         cells = {}
         for i in range(n):
@@ -179,7 +217,7 @@ def focus_items(mask, n, variant):
 
 
 def run_config(code, n, variant, mask, evaluated, ctx):
-    deps_probe = edges_of(code, n)
+    deps_probe = variant_deps(code, n, variant)
     items, idx = focus_items(mask, n, variant)
     if not items:
         return
@@ -200,9 +238,10 @@ def run_config(code, n, variant, mask, evaluated, ctx):
         tags.append('deps:direct')
     else:
         tags.append('deps:transitive')
-    if any(variant == 'range' and formula_of(i, deps_probe[i], variant,
-                                             n).startswith('=SUM')
-           for i in clo if deps_probe[i]):
+    raw = edges_of(code, n)
+    if any(variant in ('range', 'range-blank') and
+           formula_of(i, raw[i], variant, n).startswith('=SUM')
+           for i in clo if raw[i]):
         tags.append('dep:range')
     if variant == 'name' and NAME_IDX in clo and any(
             NAME_IDX in deps_probe[i] for i in clo):
@@ -285,8 +324,9 @@ def run_shard(shard, ctx):
     if shard['lo'] == 0:
         code = shard['hi'] - 1
         deps = edges_of(code, n)
+        fv = 'direct' if variant == 'mirror' else variant
         ctx.sample({'variant': variant, 'cells': {
-            addr(i, variant): formula_of(i, deps[i], variant, n) or i + 1
+            addr(i, variant): formula_of(i, deps[i], fv, n) or i + 1
             for i in range(n)}})
 
 
